@@ -33,3 +33,19 @@ func TestRegress(t *testing.T) {
 		}
 	}
 }
+
+// D20: a request whose handler forwards its context through HandleContext must not leave the context in the pool
+// twice; afterwards a request that serves a nested request must still see its own state.
+func TestRegressForwardThenNested(t *testing.T) {
+	for round := 0; round < 30; round++ {
+		r := buildForwardRouter()
+		for _, p := range []string{"/x", "/outer/a", "/x", "/x", "/outer/b", "/plain/p", "/outer/c"} {
+			got, want := httptest.NewRecorder(), httptest.NewRecorder()
+			r.ServeHTTP(got, httptest.NewRequest("GET", p, nil))
+			buildForwardRouter().ServeHTTP(want, httptest.NewRequest("GET", p, nil))
+			if got.Code != want.Code || got.Body.String() != want.Body.String() {
+				t.Fatalf("round %d: GET %s answers %d %q, on a fresh router %d %q", round, p, got.Code, got.Body.String(), want.Code, want.Body.String())
+			}
+		}
+	}
+}
